@@ -46,7 +46,7 @@ def gen_scenario(rng, small=False):
         if kind == "rq0006" and any(c["kind"] == "rq0006" for c in cmds):
             kind = "rq30c9"
         cmds.append({
-            "kind": kind, "idx": (i % 12) if rng.random() < 0.85 else rng.randrange(0, max(1, i)),   # sometimes the same frame as an earlier caller
+            "kind": kind, "idx": (i % 12) if rng.random() < 0.85 else rng.randrange(0, max(1, min(i, 16))),   # sometimes the same frame as an earlier caller
             "prio": rng.choice([0, 0, 0, -2, 2, 4, -4]),
             "max_retries": rng.choice([0, 1, 2, 3, 3, 5]),
             "timeout": rng.choice([GRID * 8, GRID * 32, GRID * 33, GRID * 64, GRID * 96, 5_000_000, 20_000_000, 30_000_000]),
